@@ -22,6 +22,24 @@ Theorem C14_interp :
   sem_block W run_line for_words set_var e n b in_loop w.
 Proof. exact run_exp_sem. Qed.
 
+(** 1b. The same under an INVARIANT of the state instead of a constant flag: if every oracle step
+    (command line, word list, variable binding) preserves [Inv] and [Inv] fixes the value of
+    exit_on_error, the interpreter on the ideal tree is the structured semantics from every state
+    satisfying [Inv] (instance Inv := flag on, e := true: set -e switched on earlier by any step
+    and never switched off -- see C15_sete_combined). *)
+Theorem C14_interp_inv :
+  forall (W : Type) (run_line : W -> str -> W * list Z) (for_words : W -> str -> W * list str)
+         (set_var : W -> str -> str -> W) (eoe : W -> bool) (e : bool) (n : nat) (Inv : W -> Prop),
+  (forall w l, Inv w -> Inv (fst (run_line w l))) ->
+  (forall w t, Inv w -> Inv (fst (for_words w t))) ->
+  (forall w k v, Inv w -> Inv (set_var w k v)) ->
+  (forall w, Inv w -> eoe w = e) ->
+  forall b, wf_block b = true ->
+  forall d in_loop w r txt, (depth_block b < d)%nat -> Inv w ->
+  run_exp W run_line for_words set_var eoe n d (TNode r txt (kids_of_block b)) in_loop w =
+  sem_block W run_line for_words set_var e n b in_loop w.
+Proof. exact run_exp_sem_inv. Qed.
+
 (** The pair tree carries trim(as_str); since d2f4d24 run_exp / run_exp_test_br read
     trim_cmd(as_str), which is the same unless the trimmed text ends in a backslash. *)
 Theorem C14_trim_cmd : forall s, count_bs (rev (trim s)) = 0%nat -> trim_cmd s = trim s.
@@ -214,6 +232,7 @@ Example C14_nonvacuous :
 Proof. vm_compute. repeat split. Qed.
 
 Print Assumptions C14_interp.
+Print Assumptions C14_interp_inv.
 Print Assumptions C14_parse_partial.
 Print Assumptions C14_parse_partial_from.
 Print Assumptions C14_parse_while_pos.
